@@ -1028,6 +1028,32 @@ func writeRegistryFacts(path string, sections map[string]int, mapOps, fieldCall 
 		}
 	}
 	sb.WriteString(fmt.Sprintf("/-- RegisterPipeline replaces a pipeline by a single sync.Map Store and never deletes it first -/\ndef regPipeStores : Nat := %d\ndef regPipeDeletes : Nat := %d\n\n", st, del))
+	// every mutation of a graph's pipeline map happens inside the caller's exclusive Broker.lock section
+	sb.WriteString("/-- every Store / Delete on graph.roots reachable from an exported function: (0 Store | 1 Delete, Broker.lock held exclusively there) -/\ndef rootsMutations : List (Nat × Bool) := [\n")
+	var rl []string
+	seenR := map[string]bool{}
+	for _, m := range mapOps {
+		k := m.entry + m.kind + m.site
+		if seenR[k] {
+			continue
+		}
+		seenR[k] = true
+		kind := 0
+		if m.kind == "Delete" {
+			kind = 1
+		}
+		rl = append(rl, fmt.Sprintf("  (%d, %v)\t-- %s in %s at %s", kind, m.locks["eventlogger.Broker.lock"] == 'W', m.kind, m.entry, m.site))
+	}
+	sort.Strings(rl)
+	for i, l := range rl {
+		parts := strings.SplitN(l, "\t-- ", 2)
+		sep := ","
+		if i == len(rl)-1 {
+			sep = ""
+		}
+		sb.WriteString(parts[0] + sep + " -- " + parts[1] + "\n")
+	}
+	sb.WriteString("]\n\n")
 	// gated: composition and Broker sends happen while Filter.l is held exclusively
 	sb.WriteString("/-- gated.Filter: calls of composeFrom / Broker.Send, with whether Filter.l is held exclusively there -/\ndef gatedCalls : List (Nat × Bool) := [\n")
 	var gl []string
@@ -1112,7 +1138,8 @@ func writeDispatchFacts(path string, p *pkgInfo) {
 	dop := p.funcs["graph.doProcess"]
 	facts := map[string]bool{}
 	order := []string{"sendsGuardedByCtx", "noLiveBareSend", "collectorHasCtxArm", "collectorChecksClosed", "closeAfterWait", "closeOnce",
-		"addBeforeRootCall", "addBeforeSpawn", "doProcessDefersDone", "rangeChecksCtxBeforeStart", "childGetsReturnedEvent", "sinkFlagFromType", "childrenSpawnedWithGo", "rootCalledInline", "errorEndsTraversalFirst"}
+		"addBeforeRootCall", "addBeforeSpawn", "doProcessDefersDone", "rangeChecksCtxBeforeStart", "childGetsReturnedEvent", "sinkFlagFromType", "childrenSpawnedWithGo", "rootCalledInline", "errorEndsTraversalFirst",
+		"ctxArmReturnsAtOnce", "errorAlwaysReported", "dropAlwaysReported"}
 	for _, k := range order {
 		facts[k] = false
 	}
@@ -1182,6 +1209,42 @@ func writeDispatchFacts(path string, p *pkgInfo) {
 				break
 			}
 		}
+		// the `err != nil` and `e == nil` exits do nothing but the guarded report: (verifPoint calls,) one select
+		// with a send arm, return -- no other way out before the report
+		onlyReports := func(body []ast.Stmt) bool {
+			var rest []ast.Stmt
+			for _, st := range body {
+				if strings.HasPrefix(exprString(p.fset, st), "verifPoint(") {
+					continue
+				}
+				rest = append(rest, st)
+			}
+			if len(rest) != 2 {
+				return false
+			}
+			sel, ok := rest[0].(*ast.SelectStmt)
+			if !ok {
+				return false
+			}
+			hasSend := false
+			for _, c := range sel.Body.List {
+				if _, ok := c.(*ast.CommClause).Comm.(*ast.SendStmt); ok {
+					hasSend = true
+				}
+			}
+			_, isRet := rest[1].(*ast.ReturnStmt)
+			return hasSend && isRet
+		}
+		for _, st := range dop.Body.List {
+			if ifs, ok := st.(*ast.IfStmt); ok && ifs.Init == nil && ifs.Else == nil {
+				switch exprString(p.fset, ifs.Cond) {
+				case "err != nil":
+					facts["errorAlwaysReported"] = onlyReports(ifs.Body.List)
+				case "e == nil":
+					facts["dropAlwaysReported"] = onlyReports(ifs.Body.List)
+				}
+			}
+		}
 		// process
 		psrc := exprString(p.fset, proc.Body)
 		facts["addBeforeRootCall"] = precededByAdd(p, proc.Body, "g.doProcess(ctx, pipeline.rootNode")
@@ -1199,6 +1262,31 @@ func writeDispatchFacts(path string, p *pkgInfo) {
 			if strings.Contains(s, "<-statusChan") {
 				facts["collectorHasCtxArm"] = strings.Contains(s, "case <-ctx.Done():")
 				facts["collectorChecksClosed"] = strings.Contains(s, "s, ok := <-statusChan") && strings.Contains(s, "if ok {")
+				// the context arm ends the collection at once: nothing in it can block
+				for _, c := range sel.Body.List {
+					cc := c.(*ast.CommClause)
+					if es, ok := cc.Comm.(*ast.ExprStmt); ok && strings.Contains(exprString(p.fset, es.X), "ctx.Done()") {
+						blocking := false
+						for _, st := range cc.Body {
+							ast.Inspect(st, func(m ast.Node) bool {
+								switch t := m.(type) {
+								case *ast.UnaryExpr:
+									if t.Op == token.ARROW {
+										blocking = true
+									}
+								case *ast.SendStmt, *ast.SelectStmt, *ast.RangeStmt, *ast.ForStmt, *ast.GoStmt:
+									blocking = true
+								case *ast.CallExpr:
+									if !strings.HasPrefix(exprString(p.fset, t), "verifPoint(") {
+										blocking = true // any call could wait (Wait, Lock, ...): none is expected here
+									}
+								}
+								return true
+							})
+						}
+						facts["ctxArmReturnsAtOnce"] = !blocking
+					}
+				}
 			}
 			if strings.Contains(s, "return false") && strings.Contains(s, "default:") {
 				facts["rangeChecksCtxBeforeStart"] = strings.Contains(s, "case <-ctx.Done():")
